@@ -1223,7 +1223,282 @@ def _reach_from(o):
     return found
 
 
-SCENARIOS = {'load_edit': load_edit_scenarios, 'metamodel_edit': metamodel_edit_scenarios}
+# ---- 3. ids: correspondence with Model/IdFrag.v (run_idfrag) ----------------------------------------------
+# The operations of the model run on pyecore: one resource (XMI or JSON, uuid mode or id attribute `key`), a tree
+# whose pre-order is the order of addition (a new object becomes a root or the last child of a node of the rightmost
+# path), a second resource that writes references into the first (Ref).  After every operation, per member:
+# obj._internal_id (uuids renumbered by first appearance on both sides), and whether resource.resolve(id) is the
+# object, against run_idfrag's tokens.  Which id-attribute texts can serve as a reference is decided here by the rule
+# of Resource._id_fragment (set, non-empty, no blank, no leading '/', no '#'): the model takes it as input.
+
+IDF_USABLE = ['k1', 'k2', 'k3', 'k4', 'k5', 'k6', '7', 'id.8_x']
+IDF_UNUSABLE = ['', 'a b', '/x', 'p#q']
+
+
+class _IdWorld:
+    def __init__(self, E, ResourceSet, URI, JsonResource, mm, td, tag, fmt):
+        self.E, self.ResourceSet, self.URI, self.JsonResource = E, ResourceSet, URI, JsonResource
+        self.pack, self.Node, self.Leaf = mm
+        self.ext = 'json' if fmt == 'json' else 'xmi'
+        self.path = f'{td}/{tag}.{self.ext}'
+        self.path2 = f'{td}/{tag}_other.{self.ext}'
+        self.rs = self._rs()
+        self.res = self.rs.create_resource(URI(self.path))
+        self.objs = {}            # model number -> live object
+        self.parent = {}          # model number -> parent number or None (root), for members
+        self.order = []           # members in order of addition (= pre-order of the tree)
+
+    def _rs(self):
+        rs = self.ResourceSet()
+        rs.metamodel_registry[self.pack.nsURI] = self.pack
+        rs.resource_factory['json'] = lambda uri: self.JsonResource(uri)
+        return rs
+
+    def rightmost_path(self):
+        path, cur = [], None
+        roots = [n for n in self.order if self.parent[n] is None]
+        while True:
+            kids = roots if cur is None else [n for n in self.order if self.parent[n] == cur]
+            if not kids:
+                return path
+            cur = kids[-1]
+            path.append(cur)
+
+    def is_leaf(self, n):
+        return not any(self.parent[m] == n for m in self.order)
+
+    def add(self, n, parent):
+        o = self.objs.get(n)
+        if o is None:
+            o = self.objs[n] = self.Node(name=f'o{n}')
+        if parent is None:
+            self.res.append(o)
+        else:
+            self.objs[parent].children.append(o)
+        self.parent[n] = parent
+        self.order.append(n)
+
+    def remove(self, n):
+        o = self.objs[n]
+        if self.parent[n] is None:
+            self.res.remove(o)
+        else:
+            self.objs[self.parent[n]].children.remove(o)
+        self.order.remove(n)
+        del self.parent[n]
+
+    def reload(self):
+        self.res.save()
+        self.rs = self._rs()
+        self.res = self.rs.get_resource(self.URI(self.path))
+        byname = {o.name: o for o in _reach(self.res)}
+        self.objs = {n: byname[f'o{n}'] for n in self.order}      # the objects outside the resource are forgotten
+
+    def ref(self, n):
+        """a reference to member n written from another resource of the same set; returns the written fragment"""
+        import re as _re
+        holder = self.Node(name='holder')
+        holder.fav = self.objs[n]
+        other = self.rs.create_resource(self.URI(self.path2))
+        other.append(holder)
+        try:
+            other.save()
+            text = open(self.path2, encoding='utf-8').read()
+        finally:
+            other.remove(holder)
+            holder.fav = None
+            self.rs.remove_resource(other)
+        m = _re.search(r'"\$ref": "([^"]*)"' if self.ext == 'json' else r'(?:fav|href)="([^"]*)"', text)
+        return m.group(1).rsplit('#', 1)[-1] if m else None
+
+    def observe(self):
+        """per member: (_internal_id or None, key text or None, resolves through its id or None when positional)"""
+        res, obs = self.res, {}
+        for n in self.order:
+            o = self.objs[n]
+            iid = o._internal_id or None
+            key = o.key if o.eIsSet('key') else None
+            obs[n] = (iid, key)
+        return bool(res.use_uuid), obs
+
+    def resolves(self, text, n):
+        try:
+            return self.res.resolve(text) is self.objs[n]
+        except Exception:   # noqa  (KeyError / IndexError: the model's None)
+            return False
+
+
+def _idf_usable(text):
+    return bool(text) and text[0] != '/' and '#' not in text and not any(c.isspace() for c in text)
+
+
+def _idfrag_compare(toks, states, hist, cov):
+    """model tokens (IdFragIO.v: use_uuid, n, then o hasI I hasK K kind back per member) against the observations;
+    uuids / drawn ids are renumbered by first appearance on each side.  Returns None or the first difference."""
+    pos = 0
+    mcls, icls = {}, {}
+    for i, (uu, order, st, written) in enumerate(states):
+        after = hist[i + 1] if i + 1 < len(hist) else '?'
+        if pos + 2 > len(toks):
+            return f'after {after}: the model stops after {i} operations'
+        m_uu, m_n = toks[pos], toks[pos + 1]
+        pos += 2
+        rows = [toks[pos + 7 * j: pos + 7 * j + 7] for j in range(m_n)]
+        pos += 7 * m_n
+        if bool(m_uu) != uu:
+            return f'after {after}: use_uuid model={bool(m_uu)} implementation={uu}'
+        if [r[0] for r in rows] != order:
+            return f'after {after}: members model={[r[0] for r in rows]} implementation={order}'
+        unreg = False
+        for o, has_i, iv, has_k, kv, kind, back in rows:
+            iid, key, ikind, iback = st[o]
+            cov['member_states_compared'] += 1
+            if bool(has_i) != (iid is not None):
+                return f'after {after}: object {o} _internal_id model={"set" if has_i else "none"} implementation={iid!r}'
+            if has_i:
+                a = mcls.setdefault(iv, len(mcls))
+                b = icls.setdefault(iid, len(icls))
+                if a != b:
+                    return (f'after {after}: object {o} carries the {b}-th distinct uuid of the history in the '
+                            f'implementation, the {a}-th in the model')
+            mkey = IDF_USABLE[kv - 1] if has_k else None
+            if mkey != key:
+                return f'after {after}: object {o} usable id attribute model={mkey!r} implementation={key!r}'
+            if bool(kind) != ikind:
+                return f'after {after}: object {o} is referred to by {"id" if kind else "position"} in the model'
+            if kind:
+                cov['id_resolutions_compared'] += 1
+            if bool(back) != iback:
+                return (f'after {after}: object {o} (referred to by {"id" if kind else "position"}) resolves back: '
+                        f'model={bool(back)} implementation={iback}')
+            unreg = unreg or not back
+        cov['states_with_unregistered_or_stale_id'] += unreg
+        cov['states_with_ids_drawn_but_not_loaded'] += any(r[1] and r[2] >= 1000 for r in rows) and uu
+        if written is not None:
+            o, frag = written
+            iid, key, ikind, _ = st[o]
+            want = (iid if uu else key) if ikind else None
+            cov['written_references_compared'] += 1
+            if ikind and frag != want:
+                return f'after {after}: the reference to object {o} was written as {frag!r}, its id is {want!r}'
+            if not ikind and not (frag or '').startswith('/'):
+                return f'after {after}: the reference to object {o} was written as {frag!r}, a position was expected'
+    if pos != len(toks):
+        return 'the model produced more observations than the implementation'
+    return None
+
+
+def idfrag_scenarios(ctx, out):
+    """histories over the operations of Model/IdFrag.v on pyecore and through run_idfrag (variant head), compared
+    after every operation"""
+    import tempfile
+    common.use_repo()
+    from pyecore import ecore as E
+    from pyecore.resources import ResourceSet, URI
+    from pyecore.resources.json import JsonResource
+    rng = common.rng_for(ctx.seed, 'C11:idfrag')
+    mm = _lte_metamodel(E, 'str')
+    n_hist = 300 if ctx.tier != 'thorough' else 5000
+    N0 = 1000
+    cov = {'histories': 0, 'operations': 0, 'by_operation': {}, 'by_format': {}, 'member_states_compared': 0,
+           'states_with_ids_drawn_but_not_loaded': 0, 'states_with_unregistered_or_stale_id': 0,
+           'id_resolutions_compared': 0, 'written_references_compared': 0, 'uuid_mode_histories': 0}
+    model = common.Model()
+    samples = []
+    with tempfile.TemporaryDirectory() as td:
+        for it in range(n_hist):
+            fmt = rng.choice(['xmi', 'json'])
+            uuid0 = rng.random() < 0.6
+            w = _IdWorld(E, ResourceSet, URI, JsonResource, mm, td, f'i{it}', fmt)
+            w.res.use_uuid = uuid0
+            hist, toks = [['format', fmt], ['uuid', uuid0]], [0, N0, 7, int(uuid0)]
+            expect_written = []                 # per operation: None or (member, written fragment)
+            states = []                         # implementation observations after every operation
+            nxt = [0]
+            drawn_not_loaded = set()
+
+            def record(written=None):
+                uu, obs = w.observe()
+                st = {}
+                for n, (iid, key) in obs.items():
+                    usable = key is not None and _idf_usable(key)
+                    kind = (iid is not None) if uu else usable
+                    text = (iid if uu else key) if kind else w.objs[n].eURIFragment()
+                    st[n] = (iid, key if usable else None, kind, w.resolves(text, n))
+                states.append((uu, list(w.order), st, written))
+            record()
+            failed = None
+            for step in range(rng.randrange(5, 15)):
+                k = rng.choice(['add'] * 4 + ['remove'] + ['save'] * 2 + ['reload'] * 2 + ['key'] * 3 + ['ref'] * 2 + ['uuid'])
+                if len(w.order) < 1:
+                    k = 'add'
+                written = None
+                try:
+                    if k == 'add':
+                        out_of = [n for n in w.objs if n not in w.order]
+                        if out_of and rng.random() < 0.3:
+                            n = rng.choice(out_of)
+                        else:
+                            n = nxt[0]
+                            nxt[0] += 1
+                        parent = rng.choice([None] + w.rightmost_path())
+                        h, t = ['add', n, parent], [3, n]
+                        w.add(n, parent)
+                    elif k == 'remove':
+                        leaves = [n for n in w.order if w.is_leaf(n)]
+                        if len(w.order) < 2 or not leaves:
+                            continue
+                        n = rng.choice(leaves)
+                        h, t = ['remove', n], [4, n]
+                        w.remove(n)
+                    elif k == 'save':
+                        h, t = ['save'], [0]
+                        w.res.save()
+                    elif k == 'reload':
+                        h, t = ['reload'], [2]
+                        w.reload()
+                        drawn_not_loaded.clear()
+                    elif k == 'key':
+                        n = rng.choice(w.order)
+                        text = rng.choice(IDF_USABLE * 2 + IDF_UNUSABLE + [None])
+                        h = ['key', n, text]
+                        t = [5, n] + ([1, IDF_USABLE.index(text) + 1] if text is not None and _idf_usable(text) else [0, 0])
+                        w.objs[n].key = text
+                    elif k == 'ref':
+                        n = rng.choice(w.order)
+                        h, t = ['ref', n], [6, n]
+                        written = (n, w.ref(n))
+                    else:
+                        b = not w.res.use_uuid
+                        h, t = ['uuid', b], [7, int(b)]
+                        w.res.use_uuid = b
+                except Exception as e:   # noqa  (the model has no exception: every operation generated here is legal)
+                    failed = f'{h}: the implementation raised {type(e).__name__}: {e}'
+                    hist.append(h)
+                    break
+                hist.append(h)
+                toks += t
+                cov['operations'] += 1
+                cov['by_operation'][h[0]] = cov['by_operation'].get(h[0], 0) + 1
+                record(written)
+            case = {'scenario': 'idfrag', 'seed': ctx.seed, 'tier': ctx.tier, 'format': fmt, 'history': [list(x) for x in hist]}
+            cov['histories'] += 1
+            cov['by_format'][fmt] = cov['by_format'].get(fmt, 0) + 1
+            cov['uuid_mode_histories'] += uuid0
+            if failed:
+                out.diff(f'idfrag: {failed}', case)
+                continue
+            bad = _idfrag_compare(model.ask('idfrag', toks), states, hist, cov)
+            if bad:
+                out.diff(f'idfrag ({fmt}): {bad}', case)
+            elif len(samples) < 2:
+                samples.append(case)
+    model.close()
+    out.coverage['idfrag'] = cov
+    out.coverage.setdefault('scenario_samples', []).extend(samples[:1])
+
+
+SCENARIOS = {'load_edit': load_edit_scenarios, 'metamodel_edit': metamodel_edit_scenarios, 'idfrag': idfrag_scenarios}
 
 
 _kernel_run = run
@@ -1233,6 +1508,7 @@ def run(ctx, out):   # noqa: F811
     _kernel_run(ctx, out)
     load_edit_scenarios(ctx, out)
     metamodel_edit_scenarios(ctx, out)
+    idfrag_scenarios(ctx, out)
     a, b = out.coverage['load_then_edit'], out.coverage['metamodel_edit']
     out.coverage['scenario_loads'] = a['loads'] + b['loaded_from_ecore']
     out.coverage['scenario_edits'] = a['edits'] + b['edits']
